@@ -122,10 +122,22 @@ where
                 LTermInner::Val(LValue::Number(w)),
             ) => {
                 /* u and w grounded */
-                state
-                    .smap_to_mut()
-                    .extend(vwalk.clone(), LTerm::from(w / u));
-                state.run_constraints()
+                if *u == 0 {
+                    /* 0 * v = w: any v if w is zero, otherwise none */
+                    if *w == 0 {
+                        Ok(state.with_constraint(self))
+                    } else {
+                        Err(())
+                    }
+                } else if w % u != 0 {
+                    /* no integer v */
+                    Err(())
+                } else {
+                    state
+                        .smap_to_mut()
+                        .extend(vwalk.clone(), LTerm::from(w / u));
+                    state.run_constraints()
+                }
             }
             (
                 LTermInner::Var(_, _),
@@ -133,10 +145,22 @@ where
                 LTermInner::Val(LValue::Number(w)),
             ) => {
                 /* v and w grounded */
-                state
-                    .smap_to_mut()
-                    .extend(uwalk.clone(), LTerm::from(w / v));
-                state.run_constraints()
+                if *v == 0 {
+                    /* u * 0 = w: any u if w is zero, otherwise none */
+                    if *w == 0 {
+                        Ok(state.with_constraint(self))
+                    } else {
+                        Err(())
+                    }
+                } else if w % v != 0 {
+                    /* no integer u */
+                    Err(())
+                } else {
+                    state
+                        .smap_to_mut()
+                        .extend(uwalk.clone(), LTerm::from(w / v));
+                    state.run_constraints()
+                }
             }
             (LTermInner::Var(_, _), LTermInner::Var(_, _), LTermInner::Val(LValue::Number(_)))
             | (LTermInner::Var(_, _), LTermInner::Val(LValue::Number(_)), LTermInner::Var(_, _))
